@@ -384,7 +384,7 @@ def buffer_history_job(mode, depth=3):
 
 # --- Part B: persistence histories ----------------------------------------------------------
 
-OPS = ["write_A", "write_B", "write_partial", "write_undef", "write_inf", "read_none", "read_masked", "update_identity", "update_region", "stale_file"]
+OPS = ["write_A", "write_B", "write_partial", "write_undef", "write_inf", "read_none", "read_masked", "update_identity", "update_region", "update_clear", "stale_file"]
 
 
 def tile_arrays(mode):
@@ -514,6 +514,19 @@ def persistence_job(job):
             elif not same(g, ref):
                 bad("readback-differs", "default='masked' read differs from the stored tile", hist)
             newref = ref
+        elif op == "update_clear":
+            # an update whose body leaves the tile entirely undefined: nothing is stored and an earlier file goes
+            if mode == "RGB" and ref is not None and ref.shape[-1] == 3:
+                return ref, False
+            shape, dt = buf_shape(mode, 256, 256)
+            blank = np.zeros(shape, dtype=dt)
+            if np.dtype(dt).kind == "f":
+                blank[...] = np.nan
+            with pio.update_image(pos, masked_mode=M, default="masked", **fk) as img:
+                # (re-filled from an all-undefined source: Image.clear() itself refuses read-only PIL-backed tiles,
+                # which is not what this operation is about)
+                Image.from_array(blank).fill_into_maskable_buffer(img, slice(None), slice(None), slice(None), slice(None))
+            newref = None
         elif op in ("update_identity", "update_region"):
             if mode == "RGB" and ref is not None and ref.shape[-1] == 3:
                 # a stored 3-channel RGB tile is not a maskable buffer; updating it is outside the model
@@ -681,7 +694,7 @@ def run(tier, seed):
     rep.rule = (
         "A: mode x indexer kind x all 2^6 source x 2^6 destination defined/undefined patterns (fill, update, clear, is_completely_masked); every sequence of up to %d "
         "operations {clear, fill defined/undefined, update partly defined/undefined} on ONE buffer object with is_completely_masked and write_image judged after each step. "
-        "B: breadth-first search over operation histories (9-op alphabet) to depth %d on a PyramidIO directory per (mode, format, scheme), "
+        "B: breadth-first search over operation histories (11-op alphabet) to depth %d on a PyramidIO directory per (mode, format, scheme), "
         "states = distinct reference tile states, deduplicated; transitions = (state, op) steps executed on the real directory"
     ) % (maxdepth, maxdepth)
     rep.assumptions = [
